@@ -476,6 +476,19 @@ package fsm
 
 // handleTxnOps: the operations are applied in order, each to the state left by the earlier ones
 // (two-state step clauses per iteration), one response per operation.
+// operations with an EMPTY oneof pass the table layer's validation (nothing to validate); in the state
+// machine they must be a no-op - an error here would be returned by Update, which the raft library
+// treats as fatal on every replica and at every restart (C16: no request terminates the process)
+//@ func handleTxnOps#empty
+//@   results results, err
+//@   requires ctx != nil && ctx.batch != nil && ctx.db != nil
+//@   requires forall j int :: 0 <= j && j < len(req) ==> req[j] != nil && req[j].Request == nil
+//@   ensures [C16.txnops.empty+C02] err == nil && len(results) == 0 && ctx.batch == old(ctx.batch)
+//@   dead return 0
+//@   dead return 1
+//@   dead return 2
+//@   modifies nothing
+//@   loop 0 invariant -1 <= rangeindex && rangeindex < len(req) && len(results) == 0 && ctx.batch == old(ctx.batch)
 //@ func handleTxnOps
 //@   results results, err
 //@   requires ctx != nil && ctx.batch != nil && ctx.db != nil && ctx.batch.bdb == ctx.db && ctx.batch != ctx.db
